@@ -282,7 +282,7 @@ func NewModule() (*Module, error) {
 	w("b/stub.go", "package b\n\ntype T string\ntype FT string\n")
 	w("c/stub.go", "package c\n\ntype U string\ntype V string\n")
 	w("cx/stub.go", "package cx\n\nimport \"context\"\n\ntype MyCtx interface{ context.Context }\n")
-	w("cg/stub.go", "package cg\n\nimport (\n\t\"context\"\n\n\t\"github.com/Khan/genqlient/graphql\"\n)\n\nfunc GetClient(ctx context.Context) (graphql.Client, error) { return nil, nil }\nfunc GetClientNoCtx() (graphql.Client, error) { return nil, nil }\n")
+	w("cg/stub.go", "package cg\n\nimport (\n\t\"context\"\n\n\t\"github.com/Khan/genqlient/graphql\"\n)\n\n// Client is what the getters hand out; Fail makes them fail (set by the verification runner).\nvar Client graphql.Client\nvar Fail error\n\nfunc GetClient(ctx context.Context) (graphql.Client, error) {\n\tif Fail != nil {\n\t\treturn nil, Fail\n\t}\n\treturn Client, nil\n}\nfunc GetClientNoCtx() (graphql.Client, error) {\n\tif Fail != nil {\n\t\treturn nil, Fail\n\t}\n\treturn Client, nil\n}\n")
 	return m, nil
 }
 
